@@ -11,7 +11,7 @@ mod c20;
 mod wallet;
 mod refnum;
 
-fn main() {
+fn real_main() {
     let args: Vec<String> = std::env::args().collect();
     let id = args.get(1).map(|s| s.as_str()).unwrap_or("");
     let tier = args.get(2).map(|s| s.as_str());
@@ -45,5 +45,16 @@ fn main() {
             eprintln!("usage: vcheck-pure <C16|...> [quick|thorough]");
             std::process::exit(2);
         }
+    }
+}
+
+fn main() {
+    // a panic of the harness itself is a machinery failure (exit 2, no verdict), never a verdict about the property
+    let id = std::env::args().nth(1).unwrap_or_default();
+    if let Err(p) = std::panic::catch_unwind(real_main) {
+        let msg = p.downcast_ref::<&str>().map(|s| s.to_string()).or_else(|| p.downcast_ref::<String>().cloned()).unwrap_or_else(|| "panic".into());
+        println!("MACHINERY-ERROR property={id} the harness panicked: {msg}");
+        mc_core::remove_scratch_root();
+        std::process::exit(2);
     }
 }
